@@ -8,6 +8,7 @@ import inspect
 import weakref
 
 from twisted.internet import defer
+from twisted.python import log
 from zope.interface import implementer, Interface
 
 from txdbus import error, interface, introspection, marshal, message
@@ -139,7 +140,12 @@ class RemoteDBusObject :
         if self._disconnectCBs:
             # walk a copy: a callback may unregister itself while it runs
             for cb in list(self._disconnectCBs):
-                cb(self, reason)
+                # a callback that raises must not keep the others (and the
+                # proxies visited after this one) from being told
+                try:
+                    cb(self, reason)
+                except Exception:
+                    log.err()
 
     def notifyOnSignal(self, signalName, callback, interface=None):
         """
